@@ -4,10 +4,10 @@
   property's reading).  The whole-pipeline refinement is stated as `C01_full` and is open; the
   theorems below each carry one clause of the property for all inputs.
 -/
-import Djc.Model.Render
+import Djc.Proofs.Render
 import Djc.Spec.Render
 namespace Djc.Props.C01
-open Djc.Tpl Djc.Render
+open Djc.Tpl Djc.Render Djc.Proofs.Render
 
 /-- **Fill choice, named.** A slot that is not flagged `default`, or whose component received no
 `default` fill, consults the fill carrying the slot's own name — whatever the fills are. -/
@@ -40,6 +40,74 @@ theorem is_filled_path (ctx : Ctx) (fills : List (Str × FillFn)) (n : Str) (hn 
     evalExpr ctx (.var [compVarsKey, isFilledKey, n]) =
       .bool ((fills.map (fun kv => escapeSlotName kv.1)).contains n) := by
   simp [evalExpr, evalPath, h, compVars, getField, hn]
+
+/-! ### which fills a component has (`resolve_fills`) -/
+
+/-- **No fill tag executed.** The body is the implicit `default` fill, unless it is blank (only
+white-space text), in which case the component has no fills — whatever the body is. -/
+theorem implicit_default_fill (body : List Node) (content : List Tok) :
+    decideFills [] body content =
+      .ok (if blankBody body then [] else [(defaultKey, { nodes := body, dataVar := none, defaultVar := none, extra := [] })]) := by
+  unfold decideFills
+  simp only [List.isEmpty_nil, if_true]
+  split <;> rfl
+
+/-- **Fill tags may not sit next to other content**, and may not address one slot twice. -/
+theorem fills_next_to_content_raise (captured : List Captured) (body : List Node) (content : List Tok)
+    (h1 : captured ≠ []) (h2 : blankToks content = false) :
+    decideFills captured body content = .error (.tse "fill alongside other content") := by
+  unfold decideFills
+  have : captured.isEmpty = false := by cases captured <;> simp_all
+  simp [this, h2]
+
+theorem duplicate_fills_raise (captured : List Captured) (body : List Node) (content : List Tok)
+    (h1 : captured ≠ []) (h2 : blankToks content = true) (h3 : ¬ (captured.map (·.name)).Nodup) :
+    decideFills captured body content = .error (.tse "duplicate fill") := by
+  unfold decideFills
+  have : captured.isEmpty = false := by cases captured <;> simp_all
+  simp [this, h2, h3]
+
+/-- **Every fill that executed is the component's fill for the name it carries** — named,
+conditional, looped and dynamically named fills alike (the names are what the fill tags evaluated
+to), for any number of them. -/
+theorem every_executed_fill_is_kept (captured : List Captured) (body : List Node) (content : List Tok)
+    (h1 : captured ≠ []) (h2 : blankToks content = true) (h3 : (captured.map (·.name)).Nodup) :
+    ∃ fills, decideFills captured body content = .ok fills ∧
+      ∀ c ∈ captured, sGet c.name fills = some (fillOfCaptured c) := by
+  unfold decideFills
+  have : captured.isEmpty = false := by cases captured <;> simp_all
+  simp only [this, h2, h3]
+  exact ⟨_, by simp, fun c hc => sGet_fold captured [] c hc h3⟩
+
+/-! ### the checks a slot makes -/
+
+/-- **A `required` slot without a fill raises** (unless the component is the dynamic wrapper). -/
+theorem required_unfilled_raises : requiredCheck true false none = .error (.tse "required slot not filled") := rfl
+
+theorem required_filled_or_optional_passes (isRequired isDyn : Bool) (fill : Option FillFn)
+    (h : isRequired = false ∨ fill.isSome = true ∨ isDyn = true) : requiredCheck isRequired isDyn fill = .ok () := by
+  unfold requiredCheck
+  rcases h with h | h | h <;> simp [h]
+  cases fill <;> simp_all
+
+/-- **Two slots flagged `default` with different names are refused**; so is a slot that is filled both
+by name and implicitly. -/
+theorem two_default_slots_raise (recorded slotName : Str) (fills : List (Str × FillFn)) (h : slotName ≠ recorded) :
+    slotChecks true false (some recorded) slotName fills = .error (.tse "two default slots") := by
+  simp [slotChecks, h]
+
+theorem double_fill_raises (recorded : Option Str) (slotName : Str) (fills : List (Str × FillFn))
+    (hr : recorded = none ∨ recorded = some slotName) (hn : slotName ≠ defaultKey)
+    (h1 : (sGet slotName fills).isSome = true) (h2 : (sGet defaultKey fills).isSome = true) :
+    slotChecks true false recorded slotName fills = .error (.tse "slot filled twice") := by
+  rcases hr with hr | hr <;> subst hr <;> simp [slotChecks, hn, h1, h2]
+
+/-- otherwise the slot goes on with the fill `chooseFillName` names (see `fill_choice_*`) -/
+theorem slot_checks_pass (isDefault isDyn : Bool) (slotName : Str) (fills : List (Str × FillFn))
+    (h : isDefault = false ∨ ((sGet slotName fills).isSome = false ∨ (sGet defaultKey fills).isSome = false)) :
+    ∃ r, slotChecks isDefault isDyn none slotName fills = .ok (chooseFillName isDefault slotName fills, r) := by
+  unfold slotChecks
+  rcases h with h | h | h <;> cases isDefault <;> cases isDyn <;> simp_all
 
 /-- The property at full strength, as a statement about the two interpreters: whenever neither
 runs out of fuel, the model of the code and the property's reading produce the same tokens up to
